@@ -14,7 +14,7 @@ for d in r["diagnostics"]:
         print(d["rendered"][:1500])
 for l in r["stderr_other"][:20]: print("ERR:", l)
 if js and "times-ms" in js:
-    fb=[f for m in js['times-ms']['smt']['smt-run-module-times'] for f in m['function-breakdown']]
+    fb=[f for m in js['times-ms'].get('smt',{'smt-run-module-times':[]})['smt-run-module-times'] for f in m['function-breakdown']]
     fb.sort(key=lambda f:-f['time-micros'])
     for f in fb[:6]: print(f['function'],f['time-micros']/1e6,f['rlimit'],f['success'])
 print("wall", r["wall_s"])
